@@ -482,3 +482,44 @@ theorem nested_runs_as_flattening (kids : List Node) (hp : PlainNodes kids) (e r
 
 end TdVerif.Props.C14
 
+/-! ## partial_tolerant -/
+namespace TdVerif.Props.C14
+open TdVerif.C14
+
+/-- run, in order, the modules whose in_keys are all present at their turn; skip the others -/
+def runPT : List Mod → Env → Env
+  | [], e => e
+  | m :: ms, e =>
+    if m.ins.all (fun k => e.has k) then
+      match runMod m e with
+      | some e' => runPT ms e'
+      | none => runPT ms e
+    else runPT ms e
+
+/-- **partial_tolerant_total** — a `partial_tolerant` sequence of plain modules never fails for a missing
+key: it returns the input object holding the result of running exactly the modules whose in_keys are present
+when their turn comes. -/
+theorem partial_tolerant_total : ∀ (ms : List Mod) (e : Env),
+    fwdKids false (plain ms) true { arg := e, exec := none } = .ok { arg := runPT ms e, exec := none }
+  | [], e => by simp [plain, fwdKids, runPT]
+  | m :: ms, e => by
+    have ih := partial_tolerant_total ms
+    simp only [plain, List.map_cons] at ih ⊢
+    simp only [fwdKids, runPT, Exec.cur, Option.getD_none, Node.ins, Bool.true_and]
+    by_cases hall : (m.ins.all fun k => e.has k) = true
+    · simp only [hall, Bool.not_true, Bool.false_eq_true, if_false, if_true]
+      have hsome : (readArgs e m.ins).isSome := by
+        rw [readArgs_some_iff]
+        intro k hk
+        have := (List.all_eq_true.1 hall) k hk
+        simpa [Env.has] using this
+      obtain ⟨args, ha⟩ := Option.isSome_iff_exists.1 hsome
+      simp only [fwdNode, fwdMod, skips, Bool.false_and, Bool.false_eq_true, if_false, ha, applyHook, Exec.after,
+        Bool.or_self, runMod]
+      exact ih _
+    · have hf : (m.ins.all fun k => e.has k) = false := by simpa using hall
+      simp only [hf, Bool.not_false, if_true, Bool.false_eq_true, if_false]
+      exact ih e
+
+end TdVerif.Props.C14
+
